@@ -89,6 +89,20 @@ def run(tier):
                        'starved': (rr.get('c16') or {}).get('starved'), 'final_state': (rr.get('c16') or {}).get('final'),
                        'trace': rr.get('trace'),
                        'how': f'echo CASE | PYTHONPATH={lib.REPO}:harness /venv/bin/python harness/impl/c15_impl.py {lib.REPO}   (field c16.starved)'})
+    l2 = [(i, m) for i, r in enumerate(res) for m in r.get('mon', []) if m[0] == 'L2']
+    if l2:
+        i, m = min(l2, key=lambda t: len(lines[t[0]]))
+        small = c15.shrink(lines[i], lambda r: any(x[0] == 'L2' for x in r.get('mon', [])))
+        rr = c15.run_impl([small])[0]
+        rep.violation('a connect failure leaves requests blocked instead of retrying / reporting the error: '
+                      + str(([x for x in rr.get('mon', []) if x[0] == 'L2'] or [m])[0][1]),
+                      {'case': small, 'original_case': lines[i], 'monitor': 'L2', 'trace': rr.get('trace'),
+                       'occurrences': len(l2)})
+    runaway = [i for i, r in enumerate(res) if r.get('runaway')]
+    if runaway:
+        i = min(runaway, key=lambda j: len(lines[j]))
+        rep.violation('the real Pool does not return control: ' + res[i]['runaway'],
+                      {'case': lines[i], 'monitor': 'RUNAWAY', 'occurrences': len(runaway)})
     for i, u in unexpected[:2]:
         rep.violation('acquire() failed although no connect failure was delivered for its database',
                       {'case': lines[i], 'failure': u})
@@ -135,6 +149,7 @@ def run(tier):
         'starved_requests_by_class': classes,
         'acquire_failures_reported_after_connect_failure': sum((r.get('stats') or {}).get('afail', 0) for r in res),
         'unexpected_acquire_failures': len(unexpected),
+        'connect_failure_monitor_L2_failures': len(l2),
         'drain_rounds_max': max(rounds) if rounds else 0,
         'c15_monitor_failures_seen': len(mon),
     })
